@@ -140,10 +140,10 @@ def run_proc(cases):
     return harness("c20", cases)
 
 def run(chk, replay=None):
-    chk.proof_leg(["Order/SortedIter.vo", "Order/HashIterAllowed.vo", "Gen/HashIterGen.vo"], "Properties/C20.v", ["Order/SortedIter.v"], "Properties.C20")
+    chk.proof_leg(["Order/SortedIter.vo", "Order/HashIterAllowed.vo", "Gen/HashIterGen.vo"], "Properties/C20.v", ["Order/SortedIter.v", "Order/Determinism_proofs.v"], "Properties.C20")
     chk.assumptions += [
         "cross-process hash seeds are sampled (a fixed number of separate processes per run); the theorem, not the sampling, carries the claim for the modelled iteration sites",
-        "conversions whose models never consult an order oracle are deterministic by construction; that they iterate no hash map is supported by the repeated runs only",
+        "conversions whose models take no order argument are deterministic by construction; that their code iterates no hash container is the obligation C20_conversion_sites_covered (textual site list), the repeated runs support it",
     ]
     quick = chk.tier == "quick"
     known = {k["class"]: k for k in load_known() if k.get("kind") == "finding" and k.get("property") == "C20"}
@@ -173,6 +173,13 @@ def run(chk, replay=None):
             chk.rng.shuffle(ls)
             cases.append({"src": "tech", "layers": ls, "reps": 4 if quick else 8})
         cases.append({"src": "tech", "layers": [[1, 0, 2], [2, 0, 2]], "reps": 8})
+        # layer indices are 64-bit in the schema and 16-bit in the layer table: two that agree modulo 2^16
+        cases.append({"src": "tech", "layers": [[1, 0, 2], [65537, 1, 2]], "reps": 8})
+        for _ in range(6 if quick else 60):
+            base = chk.rng.sample(range(0, 200), chk.rng.randrange(2, 6))
+            ls = [[n + 65536 * chk.rng.randrange(0, 4), sub, chk.rng.choice([None, 1, 2, 3])] for n in base for sub in chk.rng.sample(range(0, 40), 2)]
+            chk.rng.shuffle(ls)
+            cases.append({"src": "tech", "layers": ls, "reps": 4 if quick else 8})
         # always: one port on two and three layers, obstructions on three layers
         cases.append({"src": "lef", "reps": 8, "text": "VERSION 5.8 ;\nMACRO m\n  SIZE 4 BY 4 ;\n  PIN a\n    PORT\n      LAYER met1 ;\n        RECT 0 0 1 1 ;\n      LAYER met2 ;\n        RECT 1 1 2 2 ;\n    END\n  END a\nEND m\nEND LIBRARY\n"})
         cases.append({"src": "lef", "reps": 8, "text": "VERSION 5.8 ;\nMACRO m\n  SIZE 4 BY 4 ;\n  PIN a\n    PORT\n      LAYER met1 ;\n        RECT 0 0 1 1 ;\n      LAYER met2 ;\n        RECT 1 1 2 2 ;\n      LAYER met3 ;\n        RECT 2 2 3 3 ;\n    END\n  END a\n  OBS\n    LAYER met1 ;\n      RECT 0 0 1 1 ;\n    LAYER met2 ;\n      RECT 0 0 1 1 ;\n    LAYER met3 ;\n      RECT 0 0 1 1 ;\n  END\nEND m\nEND LIBRARY\n"})
